@@ -17,7 +17,7 @@ BASE = dict(
     arcs=2, rel=True, inch=True, g92e=True, at=True, reg_events=True, home_mid=True,
     retract="matched",      # matched | wild | none
     ext=True, scripts=True, exact=True, g90e=True, maxlen=40, minlen=6,
-    at_custom=False, streaming=False, stress=False, rebase=False,
+    at_custom=False, streaming=False, stress=False, rebase=False, arc_rel=True,
 )
 
 
@@ -221,6 +221,7 @@ class Renderer(object):  # pylint: disable=too-many-instance-attributes
         self.enabled = True
         self.open = False           # conservative: EDGE counts as open
         self.rewrites = 0
+        self.excluded_known = 0     # ops not rendered because of an open known finding
         self.nreg = len(regions)
         self.stats = {}
 
@@ -259,10 +260,12 @@ class Renderer(object):  # pylint: disable=too-many-instance-attributes
         return (phys - cur) / pr.u
 
     def e_word(self, new_e_mm):
+        if not self.pr.eabs:
+            return " E" + fmt((new_e_mm - self.pr.e) / self.pr.u, 5)
         return " E" + fmt(new_e_mm / self.pr.u, 5)
 
     def e_ok(self):
-        return self.pr.eabs
+        return self.pr.eabs or bool(self.p.get("e_rel_ok"))
 
     # -- targets
     def target(self, kind, rsel, i, j):
@@ -386,6 +389,8 @@ class Renderer(object):  # pylint: disable=too-many-instance-attributes
             self.g("G1 F" + fmt(o[1] / pr.u, 3))
         elif k == "at":
             _, params, cmd, streaming = o
+            if getattr(self, "no_enable", False) and self.atm.actions(cmd, params, False).count("enable"):
+                params = "foo"
             item = ["at", cmd, params]
             if streaming:
                 item.append(True)
@@ -399,7 +404,9 @@ class Renderer(object):  # pylint: disable=too-many-instance-attributes
         elif k == "reg":
             self.add_region(o)
         elif k == "rebase":
-            if self.open or not pr.abs:
+            if not self.p.get("rebase"):
+                self.excluded_known += 1
+            elif self.open or not pr.abs:
                 self.rewrites += 1
                 self.g("M400")
             else:
@@ -453,7 +460,9 @@ class Renderer(object):  # pylint: disable=too-many-instance-attributes
     def wild(self, o):
         _, what, n = o
         pr = self.pr
-        if what == "g10":
+        if what == "g10" and self.p.get("g10pl") and n in (2, 8):
+            self.g("G10 P%d L1 X0.5" % n if n == 2 else "G10 L2 P1 X0 Y0")
+        elif what == "g10":
             self.g("G10")
         elif what == "g11":
             self.g("G11")
@@ -473,6 +482,7 @@ class Renderer(object):  # pylint: disable=too-many-instance-attributes
         pr = self.pr
         if form == "R" and not self.p.get("arc_r"):
             form = "IJ"
+            self.excluded_known += 1
         if not pr.abs and not self.p.get("arc_rel"):
             self.rewrites += 1
             return
@@ -544,4 +554,5 @@ def cases(draw, p):
     for o in abstract:
         rnd.op(o)
     return {"config": cfg, "regions": regions, "prog": rnd.prog,
-            "meta": {"rewrites": rnd.rewrites, "fw": fw, "delta": delta, "exact": exact}}
+            "meta": {"rewrites": rnd.rewrites, "fw": fw, "delta": delta, "exact": exact,
+                     "excluded_known": rnd.excluded_known}}
